@@ -159,17 +159,19 @@ fn exec<P: Px>(c: &RCase, stats: &mut Stats, viols: &mut Vec<Viol>) {
                             if alpha_on && ch != nc - 1 {
                                 // r = N / A: both back-ends resolve A and N to 2 ulp of their summed magnitudes
                                 let aa = bcomps[i * nc + nc - 1].to_f64().abs();
-                                let da = 2.0 * ulp32_up(m[nc - 1].mag[i]);
+                                let da = 2.0 * ulp32_up(m[nc - 1].mag[i].max(aa));
                                 if aa <= 4.0 * da {
                                     stats.count("float_alpha_unresolved", 1);
                                     true
                                 } else {
-                                    let dn = 2.0 * ulp32_up(m[ch].mag[i]);
+                                    let dn = 2.0 * ulp32_up(m[ch].mag[i].max(fa.abs() * aa).max(fb.abs() * aa));
                                     let tol = (dn + fa.abs().max(fb.abs()) * da) / (aa - da) + 2.0 * ulp32_up(fa.abs().max(fb.abs()));
                                     (fa - fb).abs() <= tol
                                 }
                             } else {
-                                (fa - fb).abs() <= 2.0 * ulp32_up(m[ch].mag[i])
+                                // the summed magnitude is never below the result itself (where the model's window is
+                                // degenerate - a Box centre rounded onto the edge - its magnitude is 0)
+                                (fa - fb).abs() <= 2.0 * ulp32_up(m[ch].mag[i].max(fa.abs()).max(fb.abs()))
                             }
                         } else {
                             false
